@@ -282,7 +282,7 @@ def compare(ctx, rows, proj, what, oracle=None, nontrivial=None, max_report=3):
         if len(ctx.samples) < 4 and (ctx.evaluations % 9973 == 1):
             ctx.samples.append({'case': c, 'impl': g, 'model': l})
         if proj(gd) != proj(ld):
-            op = re.search(r'\bop=(\S+)', c)
+            op = re.search(r'\bops?=(\S+)', c)
             bad.setdefault(op.group(1) if op else '?', []).append((c, g, l))
         else:
             ctx.traces_validated += 1
@@ -300,9 +300,15 @@ def compare(ctx, rows, proj, what, oracle=None, nontrivial=None, max_report=3):
         small = shrink(ctx, c, lambda gg, ll: proj(parse_res(gg)) != proj(parse_res(ll)))
         res = replay_cases(ctx, [small])
         sg, sl = (res[0][1], res[0][2]) if res else (g, l)
+        # with a direct oracle for the property: the disagreement is a concrete failing input only if the
+        # implementation's own result violates the property on it; otherwise the correspondence is broken
+        # but no failing input was found
+        holds = oracle is not None and oracle(small, parse_res(sg)) is None
         ctx.violation(f'{what}: implementation and model disagree for {op} ({len(lst)} cases)',
                       f'# {what}: implementation differs from the Lean model (which is proved equal to the specification)\n'
-                      f'{small}\n# implementation: {sg}\n# model/spec:     {sl}\n# replay: ./check {ctx.prop} --replay <this file>\n')
+                      f'{small}\n# implementation: {sg}\n# model/spec:     {sl}\n# replay: ./check {ctx.prop} --replay <this file>\n' +
+                      ('# the implementation result on this input still satisfies the property itself: correspondence broken, no failing input found\n' if holds else ''),
+                      no_input=holds)
     for (op, kind), lst in orc.items():
         if n >= max_report * 2:
             break
